@@ -20,10 +20,10 @@ from vlib import cN, cbool, clist, cpair
 
 from props import _c25_common as cm
 from props.C25 import Oracle, shrink_candidates
+from props._c25_history import (ask, clear_caches, plan_from_json, plan_to_json, rebuild_plan,  # noqa: F401
+                                run_history, shrink_history)
 
 SRC = ["src/pynguin/analyses/generator.py", "src/pynguin/analyses/typesystem.py", "src/pynguin/analyses/module.py"]
-CACHED = ["get_subclasses", "get_superclasses", "is_subclass", "is_subtype", "is_maybe_subtype", "subtype_distance"]
-TOWER_EDGES = [("int", "bool"), ("float", "int"), ("complex", "float")]
 
 
 # ------------------------------------------------------------------------------------------------
@@ -156,223 +156,6 @@ def provider_failures(cl, orc, pv, typ):
 
 
 # ------------------------------------------------------------------------------------------------
-def ask(cl, q):
-    kind, a, b = q
-    ts = cl.ts
-    if kind == "subclass":
-        return ts.is_subclass(cl.info[a], cl.info[b])
-    ra, rb = cl.to_real(a), cl.to_real(b)
-    if kind == "sub":
-        return ts.is_subtype(ra, rb)
-    if kind == "maybe":
-        return ts.is_maybe_subtype(ra, rb)
-    return ts.subtype_distance(ra, rb)
-
-
-def clear_caches(ts):
-    for m in CACHED:
-        getattr(ts, m).cache_clear()
-
-
-def run_history(rng, cl, pool, n_ops, preset=None):
-    """Interleave cached queries with graph updates on the real TypeSystem."""
-    classes = [n for n in cl.class_names if cl.raw[n].__class__.__name__ != "EnumType"]
-    ops, answers = [], []
-    queries = []
-    if preset is not None:
-        plan = preset
-    else:
-        plan = []
-        for _ in range(n_ops):
-            c = rng.random()
-            if c < 0.22 and len(classes) >= 2:
-                p, k = rng.sample(classes, 2)
-                plan.append(("edge", p, k))
-            elif c < 0.27:
-                plan.append(("tower",))
-            elif c < 0.40:
-                plan.append(("q", ("subclass", rng.choice(cl.universe), rng.choice(cl.universe))))
-                queries.append(plan[-1][1])
-            else:
-                a, b = rng.choice(pool), rng.choice(pool)
-                if queries and rng.random() < 0.45:
-                    plan.append(("q", rng.choice(queries)))
-                else:
-                    plan.append(("q", (rng.choice(["sub", "maybe", "dist", "dist"]), a, b)))
-                    queries.append(plan[-1][1])
-    if preset is None and rng is not None:
-        plan = add_shortcuts(rng, cl, plan)
-    queries = []
-    for step in plan:
-        if step[0] == "q":
-            q = step[1]
-            queries.append(q)
-            ops.append(("Query", q))
-            answers.append(("ans", q[0], ask(cl, q)))
-        elif step[0] == "edge":
-            cl.ts.add_subclass_edge(super_class=cl.info[step[1]], sub_class=cl.info[step[2]])
-            ops.append(("AddEdge", step[1], step[2]))
-            answers.append(None)
-        else:
-            cl.ts.enable_numeric_tower()
-            for p, k in TOWER_EDGES:
-                ops.append(("AddEdge", p, k))
-                answers.append(None)
-    # S: cached answers vs recomputation on the final graph
-    fails = []
-    distinct = list(dict.fromkeys(queries))
-    cached = [ask(cl, q) for q in distinct]
-    clear_caches(cl.ts)
-    for q, a in zip(distinct, cached):
-        fresh = ask(cl, q)
-        if fresh != a:
-            name = {"sub": "is_subtype", "maybe": "is_maybe_subtype", "dist": "subtype_distance", "subclass": "is_subclass"}[q[0]]
-            what = (f"{name}({q[1] if q[0] == 'subclass' else cm.t_str(q[1])}, {q[2] if q[0] == 'subclass' else cm.t_str(q[2])}) "
-                    f"answers {a} from its cache after the inheritance graph changed; recomputed on the final graph: {fresh}")
-            fails.append((f"cache-stale:{name}", what, q))
-    # ... and vs a fresh TypeSystem that received the final graph before it was asked anything
-    names, edges, _ = cl.graph_for(history_classes(cl, distinct))
-    fresh_ts = cm.Cluster.bare_from(cl, names, edges)
-    for q, a in zip(distinct, cached):
-        fresh = ask(fresh_ts, q)
-        if fresh != a and not any(f[2] == q for f in fails):
-            name = {"sub": "is_subtype", "maybe": "is_maybe_subtype", "dist": "subtype_distance", "subclass": "is_subclass"}[q[0]]
-            what = (f"{name}({q[1] if q[0] == 'subclass' else cm.t_str(q[1])}, {q[2] if q[0] == 'subclass' else cm.t_str(q[2])}) "
-                    f"answers {a} from its cache after the inheritance graph changed; a fresh TypeSystem with the final graph: {fresh}")
-            fails.append((f"cache-stale:{name}", what, q))
-    return ops, answers, fails, plan
-
-
-def history_classes(cl, queries):
-    used = set(cl.universe)
-    for q in queries:
-        if q[0] == "subclass":
-            used.update([q[1], q[2]])
-        else:
-            cm.t_classes(q[1], used)
-            cm.t_classes(q[2], used)
-    return used
-
-
-def add_shortcuts(rng, cl, plan):
-    """Insert redundant edges (a -> c where a longer path a ~> c exists already: a class listing a base and
-    an ancestor of that base, diamond shortcuts) with distance queries on the end points before and after."""
-    import networkx as nx
-
-    g = cl.ts._graph  # noqa: SLF001
-    names = [n for n in cl.universe if cl.hg_of(n) is None]
-    cands = []
-    for a in names:
-        for c in cl.class_names:
-            if a != c and cl.info[a] in g and cl.info[c] in g and not g.has_edge(cl.info[a], cl.info[c]):
-                try:
-                    if nx.shortest_path_length(g, cl.info[a], cl.info[c]) >= 2:
-                        cands.append((a, c))
-                except nx.NetworkXNoPath:
-                    pass
-    rng.shuffle(cands)
-    plan = list(plan)
-    for a, c in cands[:rng.choice([1, 2, 3])]:
-        ta, tc, to = cm.t_inst(a), cm.t_inst(c), cm.t_inst("object")
-        before = [("q", ("dist", ta, tc)), ("q", ("dist", to, tc)), ("q", ("dist", cm.t_union([ta, cm.NONE_T]), tc)),
-                  ("q", ("sub", tc, ta)), ("q", ("subclass", c, a))]
-        rng.shuffle(before)
-        block = before[:rng.choice([2, 3, 5])] + [("edge", a, c)]
-        block += [st for st in before if rng.random() < 0.7]
-        pos = rng.randrange(len(plan) + 1)
-        plan[pos:pos] = block
-    return plan
-
-
-def rebuild_plan(rng, cl):
-    """The hierarchy of the cluster fed edge by edge, in a random order, into a fresh TypeSystem, with extra
-    shortcut edges and with queries between the graph updates."""
-    import networkx as nx
-
-    names, edges, _ = cl.graph_for(set(cl.universe))
-    g = nx.DiGraph(edges)
-    extra = []
-    for a in names:
-        for c in cl.class_names:
-            if a in g and c in g and a != c and not g.has_edge(a, c) and nx.has_path(g, a, c):
-                extra.append((a, c))
-    rng.shuffle(extra)
-    todo = list(edges) + extra[:rng.choice([0, 1, 2, 4])]
-    mode = rng.choice(["shuffle", "analysis", "reverse"])
-    if mode == "shuffle":
-        rng.shuffle(todo)
-    elif mode == "reverse":
-        todo.reverse()
-    plain = [n for n in names if cl.hg_of(n) is None and not n.startswith("@")]
-    asked = []
-    plan = []
-    for a, c in todo:
-        plan.append(("edge", a, c))
-        for _ in range(rng.choice([0, 1, 2, 3])):
-            if asked and rng.random() < 0.5:
-                plan.append(("q", rng.choice(asked)))
-                continue
-            x = rng.choice([a, c, "object", rng.choice(plain)])
-            y = rng.choice([a, c, rng.choice(cl.class_names or plain), rng.choice(plain)])
-            if cl.hg_of(x) is not None or cl.hg_of(y) is not None or x.startswith("@") or y.startswith("@"):
-                continue
-            kind = rng.choice(["dist", "dist", "dist", "sub", "maybe", "subclass"])
-            q = ("subclass", y, x) if kind == "subclass" else (kind, cm.t_inst(x), cm.t_inst(y))
-            if kind == "dist" and rng.random() < 0.3:
-                q = ("dist", cm.t_union([cm.t_inst(x), cm.NONE_T]), cm.t_tuple([cm.t_inst(y)])) if rng.random() < 0.3 else \
-                    ("dist", cm.t_inst("list", [cm.t_inst(x)]), cm.t_inst("list", [cm.t_inst(y)]))
-            asked.append(q)
-            plan.append(("q", q))
-    for q in asked[:12]:
-        plan.append(("q", q))
-    return names, plan
-
-
-def shrink_history(cl_factory, plan, sig):
-    """Delta-debug a history plan; cl_factory() builds a fresh cluster (graph updates are destructive)."""
-    changed = True
-    budget = 8
-    while changed and budget > 0:
-        changed = False
-        for i in range(len(plan)):
-            cand = plan[:i] + plan[i + 1:]
-            budget -= 1
-            if budget <= 0:
-                break
-            cl = cl_factory()
-            try:
-                _, _, fails, _ = run_history(None, cl, None, 0, preset=cand)
-            finally:
-                cl.close()
-            if any(f[0] == sig for f in fails):
-                plan, changed = cand, True
-                break
-    return plan
-
-
-def plan_to_json(plan):
-    out = []
-    for st in plan:
-        if st[0] == "q":
-            k, a, b = st[1]
-            out.append(["q", k, a if k == "subclass" else cm.t_to_json(a), b if k == "subclass" else cm.t_to_json(b)])
-        else:
-            out.append(list(st))
-    return out
-
-
-def plan_from_json(js):
-    out = []
-    for st in js:
-        if st[0] == "q":
-            k = st[1]
-            out.append(("q", (k, st[2] if k == "subclass" else cm.t_from_json(st[2]), st[3] if k == "subclass" else cm.t_from_json(st[3]))))
-        else:
-            out.append(tuple(st))
-    return out
-
-
-# ------------------------------------------------------------------------------------------------
 # histories on the real providers of real clusters (one cluster per generator selection algorithm)
 def make_cluster(scratch, modname, src, class_names, kind):
     import pynguin.configuration as config
@@ -412,25 +195,38 @@ class PHist:
         return self.ids[self.name_of_obj[id(g)]]
 
     def table(self):
+        """The provider's registrations in dict order; None when they leave the model."""
         out = []
         for real_t, gens in self.prov.get_all().items():
             t = self.cl.from_real(real_t)
             if t is None or not self.cl.wf(t) or any(id(g) not in self.name_of_obj for g in gens):
                 return None
             out.append((t, sorted({self.gid(g) for g in gens})))
+        if len({t for t, _ in out}) != len(out):   # two real keys with one abstraction (tuple vs tuple[Any])
+            return None
         return out
+
+    def table_by_signature(self):
+        """What the registrations must be: every generator under its current generated type."""
+        exp = {}
+        for g in self.objs.values():
+            t = self.cl.from_real(g.generated_type())
+            if t is None:
+                return None
+            exp.setdefault(t, set()).add(self.gid(g))
+        return exp
 
     def offered(self, typ):
         return sorted({self.gid(g.generator) for g in self.prov._get_generators_for(self.cl.to_real(typ))})  # noqa: SLF001
 
     def offered_fresh(self, typ):
-        """A provider of the same class freshly built on the current table and type system (not memoised)."""
+        """A provider of the same class freshly built for the current signatures (every generator registered
+        under its current generated type) on the current type system; not memoised."""
         from pynguin.ga.operators.selection import RandomSelection
 
         fresh = type(self.prov)(self.cl.ts, RandomSelection())
-        for real_t, gens in self.prov.get_all().items():
-            for g in gens:
-                fresh.add_for_type(real_t, g)
+        for g in self.objs.values():
+            fresh.add_for_type(g.generated_type(), g)
         res = type(self.prov)._get_generators_for.__wrapped__(fresh, self.cl.to_real(typ))  # noqa: SLF001
         return sorted({self.gid(g.generator) for g in res})
 
@@ -465,8 +261,14 @@ def gen_pplan(rng, ph: PHist, n_ops):
             asked.append(t)
             plan.append(("q", t))
         elif c < 0.82 and upd:
-            plan.append(("update", rng.choice(upd), rng.choice(newtypes)))
-            for t in rng.sample(asked, min(len(asked), 3)):
+            nt = rng.choice(newtypes)
+            plan.append(("update", rng.choice(upd), nt))
+            for t in rng.sample(asked, min(len(asked), 2)):
+                plan.append(("q", t))
+            # requests unrelated to the observed type: a stale registration would show up here
+            others = [t for t in newtypes + [cm.t_inst("object"), cm.t_tuple([cm.t_inst("str")])] if t != nt]
+            for t in rng.sample(others, min(len(others), 3)):
+                asked.append(t)
                 plan.append(("q", t))
         elif c < 0.88:
             plan.append(("clear",))
@@ -480,13 +282,29 @@ def gen_pplan(rng, ph: PHist, n_ops):
 
 
 def run_phistory(ph: PHist, plan):
-    """Returns None when the table leaves the model, else (initial table, ops, answers, fails)."""
+    """Returns None when the table leaves the model, else (initial table, ops, answers, tables, fails)."""
     cl = ph.cl
-    tb0 = tb = ph.table()
-    if tb is None:
+    tb0 = ph.table()
+    if tb0 is None:
         return None
-    ops, answers, fails = [], [], []
+    ops, answers, tables, fails = [], [], [], []
     cached_at, new_edges = {}, []
+    names = {v: k for k, v in ph.ids.items()}
+
+    def check_table(i, why):
+        real, exp = ph.table(), ph.table_by_signature()
+        if real is None or exp is None:
+            return False
+        got = {t: set(ids) for t, ids in real}
+        if got != exp:
+            wrong = sorted((cm.t_str(t), sorted(names[x] for x in got.get(t, set()) ^ exp.get(t, set())))
+                           for t in set(got) | set(exp) if got.get(t, set()) != exp.get(t, set()))
+            fails.append((f"generator-table:stale-registration:{ph.kind}",
+                          f"after {why} the generator registrations differ from the generators' current return types: {wrong[:4]}", i))
+        return True
+
+    if not check_table(-1, "module analysis"):
+        return None
     for i, st in enumerate(plan):
         if st[0] == "q":
             typ = st[1]
@@ -497,26 +315,29 @@ def run_phistory(ph: PHist, plan):
             if ans != fresh:
                 excused = any(e > cached_at[typ] for e in new_edges)
                 cause = "graph-update" if excused else "after-invalidation"
-                names = {v: k for k, v in ph.ids.items()}
                 diff = sorted(set(ans) ^ set(fresh))
                 fails.append((f"provider-cache-stale:{cause}:{ph.kind}",
-                              f"{type(ph.prov).__name__}._get_generators_for({cm.t_str(typ)}) answers from its cache and differs from a "
-                              f"freshly built provider on the final state in {[names[d] for d in diff]} "
+                              f"{type(ph.prov).__name__}._get_generators_for({cm.t_str(typ)}) differs from a provider freshly built for "
+                              f"the current signatures in {[names[d] for d in diff]} "
                               + ("(the inheritance graph changed since the answer was memoised; add_subclass_edge cannot reach the provider cache)"
                                  if excused else "(although clear_generator_cache ran / nothing changed since it was memoised)"), i))
         elif st[0] == "update":
             acc = ph.objs.get(st[1])
             if acc is None or not cl.wf(st[2]):
                 continue
+            old_real = acc.inferred_signature.return_type
             cl.cluster.update_return_type(acc, cl.to_real(st[2]))
-            tb2 = ph.table()
-            if tb2 is None:
+            new_real = acc.inferred_signature.return_type
+            if new_real == old_real:
+                continue
+            old_t, new_t, tb = cl.from_real(old_real), cl.from_real(new_real), ph.table()
+            if old_t is None or new_t is None or tb is None or not cl.wf(new_t):
                 break
-            if tb2 != tb:
-                tb = tb2
-                ops.append(("PTable", tb2, True))
-                answers.append(None)
-                cached_at.clear()
+            ops.append(("PUpdate", ph.gid(acc), old_t, new_t))
+            answers.append(None)
+            tables.append(tb)
+            cached_at.clear()
+            check_table(i, f"update_return_type({st[1]}, {cm.t_str(st[2])})")
         elif st[0] == "clear":
             ph.prov.clear_generator_cache()
             ops.append(("PClear",))
@@ -529,7 +350,7 @@ def run_phistory(ph: PHist, plan):
             cl.ts.add_subclass_edge(super_class=a, sub_class=b)
             ops.append(("PEdge", st[1], st[2]))
             answers.append(None)
-    return tb0, ops, answers, fails
+    return tb0, ops, answers, tables, fails
 
 
 def pplan_to_json(plan):
@@ -544,7 +365,7 @@ def c_table(num, tb):
     return clist(cpair(num.ty(t), clist(cN(i) for i in ids)) for t, ids in tb)
 
 
-def c_phcase(ph: PHist, names, edges, hgs, tb0, ops, answers):
+def c_phcase(ph: PHist, names, edges, hgs, tb0, ops, answers, tables):
     cl = ph.cl
     num = cm.Numbering(names)
     prims = [n for n in names if cl.to_real(cm.t_inst(n, [cm.ANY_T] * (cl.hg_of(n) or 0))).accept(_prim())]
@@ -552,17 +373,18 @@ def c_phcase(ph: PHist, names, edges, hgs, tb0, ops, answers):
     for o in ops:
         if o[0] == "PQuery":
             ops_c.append(f"C26.PQuery {num.ty(o[1])}")
-        elif o[0] == "PTable":
-            ops_c.append(f"C26.PTable {c_table(num, o[1])} {cbool(o[2])}")
+        elif o[0] == "PUpdate":
+            ops_c.append(f"C26.PUpdate {cN(o[1])} {num.ty(o[2])} {num.ty(o[3])}")
         elif o[0] == "PEdge":
             ops_c.append(f"C26.PEdge {num.cls(o[1])} {num.cls(o[2])}")
         else:
             ops_c.append("C26.PClear")
     ans_c = clist("None" if a is None else f"(Some {clist(cN(i) for i in a)})" for a in answers)
     return ("C26.CPHistory {| C26.ph_kind := C26.%s; C26.ph_graph := %s; C26.ph_anyd := %s; C26.ph_prims := %s; "
-            "C26.ph_table := %s; C26.ph_ops := %s; C26.ph_answers := %s |}" % (
+            "C26.ph_table := %s; C26.ph_ops := %s; C26.ph_answers := %s; C26.ph_tables := %s |}" % (
                 "PHeur" if ph.kind == "heuristic" else "PRand", num.graph(names, edges, hgs), cN(cm.any_distance()),
-                clist(num.cls(n) for n in prims), c_table(num, tb0), clist(ops_c), ans_c))
+                clist(num.cls(n) for n in prims), c_table(num, tb0), clist(ops_c), ans_c,
+                clist(c_table(num, t) for t in tables)))
 
 
 # ------------------------------------------------------------------------------------------------
@@ -751,7 +573,14 @@ def work(arg):
                     if res is None:
                         count("provider-history:table-outside-model")
                         continue
-                    tb0, pops, pans, pfails = res
+                    tb0, pops, pans, ptabs, pfails = res
+                    extra = set()
+                    for t in ptabs:
+                        for k, _ in t:
+                            cm.t_classes(k, extra)
+                    if not extra <= set(pnames):
+                        count("provider-history:class-outside-initial-graph")
+                        continue
                     for sig, what, step in pfails:
                         if any(f["signature"] == sig for f in fails):
                             count("oracle-repeat:" + sig)
@@ -759,7 +588,7 @@ def work(arg):
                         fails.append({"signature": sig, "what": what,
                                       "replay": {"kind": "phistory", "provider": kind, "plan": pplan_to_json(pplan[:step + 1]),
                                                  "src": src, "classes": class_names}})
-                    cases.append(c_phcase(ph, pnames, pedges, phgs, tb0, pops, pans))
+                    cases.append(c_phcase(ph, pnames, pedges, phgs, tb0, pops, pans, ptabs))
                     n_eval += sum(1 for a in pans if a is not None)
                     for o in pops:
                         count(f"provider-op:{kind}:{o[0]}")
@@ -914,7 +743,7 @@ def replay(ctx, path):
             names = {v: k for k, v in ph.ids.items()}
             for o, a in zip(res[1], res[2]):
                 print(o[0], cm.t_str(o[1]) if o[0] == "PQuery" else o[1:], "->", None if a is None else [names[i] for i in a])
-            print("oracle:", [(f[0], f[1]) for f in res[3]])
+            print("oracle:", [(f[0], f[1]) for f in res[4]])
         return 0
     if rp["kind"] == "history":
         ops, answers, fails, _ = run_history(None, cl, None, 0, preset=plan_from_json(rp["history"]))
